@@ -263,6 +263,8 @@ class _Ob:
 
 
 SA_KEYS = ("superadditive", "superadditive_cached")
+# the structural rules B1-B5 are necessary for every property about the bound computers (scope: the computers the property looks at)
+P_ALL = {"C01", "C02", "C03", "C04", "C07", "C08"}
 
 
 def rule_bounds(prog: Program, col: Collector) -> None:
@@ -299,11 +301,11 @@ def rule_bounds(prog: Program, col: Collector) -> None:
     if pid == "C04" and not sam:
         raise AnchorMissing("no approximate (sam_apx_*) computer registered in BOUNDS")
 
-    ob.rule("B1", {"C01", "C04", "C08", "C07"}, "every write is set_lower/upper_bound(v, c) with c the loop variable of a loop over the UNKNOWN coalitions; no other mutator of the game is called", 2)
-    ob.rule("B2", {"C01", "C04", "C08", "C07"}, "for LB and for UB there is a loop over all UNKNOWN coalitions (unrestricted) that reaches the write on every path", 2)
-    ob.rule("B3", {"C01", "C02", "C08", "C07"}, "the first lower-bound loop iterates the unknown coalitions by increasing size", 1)
-    ob.rule("B4", {"C01", "C08", "C04", "C07"}, "in the first lower-bound phase every bound read is at proper non-empty sub-coalitions (final entries)", 1)
-    ob.rule("B5", {"C01", "C04", "C08", "C07"}, "every upper-bound loop starts after the last lower-bound loop has ended", 1)
+    ob.rule("B1", P_ALL, "every write is set_lower/upper_bound(v, c) with c the loop variable of a loop over the UNKNOWN coalitions; no other mutator of the game is called", 2)
+    ob.rule("B2", P_ALL, "for LB and for UB there is a loop over all UNKNOWN coalitions (unrestricted) that reaches the write on every path", 2)
+    ob.rule("B3", P_ALL, "the first lower-bound loop iterates the unknown coalitions by increasing size", 1)
+    ob.rule("B4", P_ALL, "in the first lower-bound phase every bound read is at proper non-empty sub-coalitions (final entries)", 1)
+    ob.rule("B5", P_ALL, "every upper-bound loop starts after the last lower-bound loop has ended", 1)
     ob.rule("B6s", {"C01", "C02", "C04"}, "lower value = reduction over LB(P) + LB(c\\P): lower-bound columns, complement of the same P, no extra `initial` candidate", 1)
     ob.rule("B7s", {"C01", "C02", "C04"}, "upper value = reduction over KV(T) - LB(T\\c): T known strict supersets, lower-bound subtrahend, subtraction, no extra `initial` candidate", 1)
     ob.rule("B6s", {"C03", "C07", "C08"}, "lower value is the reduction over the splits only (no extra `initial` candidate)", 0)
@@ -332,12 +334,11 @@ def rule_bounds(prog: Program, col: Collector) -> None:
 def _check_computer(ob: _Ob, comp: Computer, is_sam: bool) -> None:
     ref, fn = comp.ref, comp.ref.short
     col = ob.col
-    P_ALL = {"C01", "C02", "C03", "C04", "C07", "C08"}
     if not comp.writes:
         raise AnalysisError(f"{fn}: no set_lower_bound/set_upper_bound call on the game parameter found")
     # ---- B1
     for ev in comp.other_mutations:
-        ob.check("B1", {"C01", "C04", "C08", "C07"}, False, ref.where(ev.node), fn,
+        ob.check("B1", P_ALL, False, ref.where(ev.node), fn,
                  f"computer calls game.{ev.name}(...)", f"mutator:{ev.name}",
                  "a bound computer may only write bounds of unknown rows: writing a known row replaces v(S) by a bound")
     # stores through getter views
@@ -346,19 +347,19 @@ def _check_computer(ob: _Ob, comp: Computer, is_sam: bool) -> None:
         while isinstance(base, tuple) and base[0] == "index":
             base = base[1]
         if isinstance(base, tuple) and base[0] == "call" and base[1][0] == "attr" and base[1][1] == comp.game:
-            ob.und("B1", {"C01", "C04", "C08", "C07"}, ref.where(ev.node), fn,
+            ob.und("B1", P_ALL, ref.where(ev.node), fn,
                    f"in-place store through game.{base[1][2]}() (vectorised redesign: not in the recognised idiom family)")
     for w in comp.writes:
         where = ref.where(w.ev.node)
         if w.loop_ev is None:
-            ob.check("B1", {"C01", "C04", "C08", "C07"}, False, where, fn, "write target is the loop variable",
+            ob.check("B1", P_ALL, False, where, fn, "write target is the loop variable",
                      f"target:{w.col}", "a write to another row than the one being processed bypasses the unknown filter")
             continue
         lc = w.loop_coll
         if not isinstance(lc, Coll) or lc.unrecognised:
-            ob.und("B1", {"C01", "C04", "C08", "C07"}, where, fn, f"loop iterable not understood: {show_coll(lc)}")
+            ob.und("B1", P_ALL, where, fn, f"loop iterable not understood: {show_coll(lc)}")
             continue
-        ob.check("B1", {"C01", "C04", "C08", "C07"}, lc.known is False, where, fn,
+        ob.check("B1", P_ALL, lc.known is False, where, fn,
                  f"{w.col} write targets the loop variable of a loop over {lc.show()} (must be unknown-filtered)",
                  f"loop-not-unknown:{w.col}",
                  "a write to a known row replaces v(S) by a partition bound: the interval of a known coalition must be exactly its value")
@@ -376,13 +377,13 @@ def _check_computer(ob: _Ob, comp: Computer, is_sam: bool) -> None:
                         w1.cond_frames[0][1] == w2.cond_frames[0][1] and w1.cond_frames[0][2] != w2.cond_frames[0][2]:
                     both = True
         if ws and not full and cond_ws and both:
-            ob.und("B2", {"C01", "C04", "C08", "C07"}, where, fn, f"{colname} is written on both branches of a condition inside the loop (not in the recognised idiom family)")
+            ob.und("B2", P_ALL, where, fn, f"{colname} is written on both branches of a condition inside the loop (not in the recognised idiom family)")
         elif ws and not full and cond_ws:
-            ob.check("B2", {"C01", "C04", "C08", "C07"}, False, ref.where(cond_ws[0].ev.node), fn,
+            ob.check("B2", P_ALL, False, ref.where(cond_ws[0].ev.node), fn,
                      f"{colname}: the write is reached for every unknown coalition (it is conditional inside the loop body)", f"conditional-write:{colname}",
                      "an unknown row that is not rewritten keeps a bound of an earlier knowledge state (stale after un-reveal)")
         else:
-            ob.check("B2", {"C01", "C04", "C08", "C07"}, bool(full), where, fn,
+            ob.check("B2", P_ALL, bool(full), where, fn,
                      f"{colname}: a loop over all unknown coalitions rewrites every unknown row"
                      + ("" if full else f" (found: {[show_coll(w.loop_coll) for w in ws]})"),
                      f"coverage:{colname}",
@@ -391,7 +392,7 @@ def _check_computer(ob: _Ob, comp: Computer, is_sam: bool) -> None:
         for w in full:
             early = [e for e in comp.ft.events if e.kind in ("break", "continue", "return", "raise")
                      and any(f[0] == "for" and f[1] == w.loop_uid for f in e.ctx) and e.seq < w.ev.seq]
-            ob.check("B2", {"C01", "C04", "C08", "C07"}, not early, ref.where((early[0] if early else w.ev).node), fn,
+            ob.check("B2", P_ALL, not early, ref.where((early[0] if early else w.ev).node), fn,
                      f"{colname}: no break/continue/return precedes the write inside the loop body", f"early-exit:{colname}",
                      "skipping the write for some unknown coalition leaves a stale bound")
     lbs = [w for w in comp.writes if w.col == "LB" and w.loop_ev is not None]
@@ -404,7 +405,7 @@ def _check_computer(ob: _Ob, comp: Computer, is_sam: bool) -> None:
     if lbs:
         first = min(lbs, key=lambda w: w.ev.seq)
         if isinstance(first.loop_coll, Coll):
-            ob.check("B3", {"C01", "C02", "C08", "C07"}, first.loop_coll.order == "up", ref.where(first.loop_ev.node), fn,
+            ob.check("B3", P_ALL, first.loop_coll.order == "up", ref.where(first.loop_ev.node), fn,
                      f"first LB loop iterates by increasing size (order={first.loop_coll.order})", "lb-order",
                      "the recurrence reads lower bounds of strictly smaller coalitions: out of size order they are stale entries")
     # ---- B5 phase order
@@ -423,7 +424,7 @@ def _check_computer(ob: _Ob, comp: Computer, is_sam: bool) -> None:
         for w in ubs:
             shared = [f for f in w.outer if any(f[1] == g[1] for lw in lbs for g in lw.outer)]
             ok = w.loop_ev.seq > last_lb_end and not shared and w.loop_uid not in {lw.loop_uid for lw in lbs}
-            ob.check("B5", {"C01", "C04", "C08", "C07"}, ok, ref.where(w.loop_ev.node), fn,
+            ob.check("B5", P_ALL, ok, ref.where(w.loop_ev.node), fn,
                      "UB loop starts after every LB loop (and repetition) has ended", "ub-before-lb",
                      "the upper recurrence reads LB(T\\c) of arbitrary size: all lower bounds must be final")
     # ---- per-write value obligations
@@ -472,7 +473,7 @@ def _check_lb(ob: _Ob, comp: Computer, w: Write, is_sam: bool) -> None:
     for at0, later, undec, v in _alts(w):
         tag = "all" if (at0 and later) or (at0 and not w.outer) else ("phase0" if at0 else "later")
         if undec:
-            ob.und("B4", {"C01", "C04", "C08", "C07"}, where, fn, "branch condition on something other than the repetition counter")
+            ob.und("B4", P_ALL, where, fn, "branch condition on something other than the repetition counter")
             continue
         if v[0] == "MAX2":
             extra = [x for x in (v[1], v[2]) if x[0] in ("LB", "UB", "VAL", "KV", "KNV")]
@@ -547,7 +548,7 @@ def _check_lb(ob: _Ob, comp: Computer, w: Write, is_sam: bool) -> None:
                  "a part that is not a sub-coalition does not split c")
         # B4 fresh reads (first phase / SA)
         if at0:
-            ob.check("B4", {"C01", "C08", "C04", "C07"}, P.classes <= {PSUB} | ({EMPTY} if False else set()), where, fn,
+            ob.check("B4", P_ALL, P.classes <= {PSUB} | ({EMPTY} if False else set()), where, fn,
                      f"first-phase split set excludes the row itself and the empty coalition: {P.show()}", "lb-stale-self",
                      "reading the own row (SELF, or EMPTY whose complement is SELF) imports the stale bound of an earlier compute: unsound after un-reveal")
         if later and is_sam:
@@ -748,7 +749,7 @@ def _check_cache_hygiene(col: Collector, prog: Program, struct: StructInfo | Non
               necessity="a memoised result that depends on anything but n is wrong for later callers", rule="B9")
     params = sref.positional_params()
     col.check(len(params) == 1, sref.where(), sref.short, "single parameter (the cache key is n alone)", construct="cache-key",
-              necessity="", rule="B9")
+              necessity="a cached structure keyed by anything but n is shared between games that need different tables", rule="B9")
     ncallers = 0
     for fref in prog.all_functions():
         if fref.qual == sref.qual:
@@ -784,7 +785,7 @@ def _check_cache_hygiene(col: Collector, prog: Program, struct: StructInfo | Non
                   necessity="the cached tuple is shared by every later call with the same n, from any game object: one in-place "
                             "write makes later results depend on call history", rule="B9")
     col.check(ncallers >= 2, sref.where(), sref.short, f"{ncallers} caller(s) of the cached structure analysed", construct="cache-callers",
-              necessity="", rule="B9")
+              necessity="anchor: both the superadditive and the SAM cached computers must be found as callers, otherwise the hygiene analysis looked at nothing", rule="B9")
 
 
 def _check_siblings(ob: _Ob, prog: Program, sa: list[Computer], struct: StructInfo | None, comps) -> None:
@@ -815,7 +816,7 @@ def _check_siblings(ob: _Ob, prog: Program, sa: list[Computer], struct: StructIn
     # ---- REG-B
     col.rule("REG-B", "the two registry names map to two distinct computers accepting (game); get_env selects BOUNDS[game_class]; CLI offers BOUNDS.keys()", 4)
     col.check(sa[0].ref.qual != sa[1].ref.qual, sa[0].ref.where(), "bounds.BOUNDS", "the two names map to distinct functions",
-              construct="registry-same", necessity="", rule="REG-B")
+              construct="registry-same", necessity="the property compares the two registered computers: if both names resolve to one function the comparison is vacuous", rule="REG-B")
     for key, ref, kv, entry in comps:
         need = [p for p in ref.positional_params()[1:] if p not in kv and p not in fterms(prog, ref).param_defaults]
         col.check(not need and len(ref.positional_params()) >= 1, ref.where(), ref.short,
@@ -836,7 +837,7 @@ def _check_siblings(ob: _Ob, prog: Program, sa: list[Computer], struct: StructIn
             ch = e.kwargs.get("choices")
             okc = ch is not None and any(is_global(s, "incomplete_cooperative.bounds.BOUNDS") for s in subterms(ch))
     col.check(okc, aref.where(), aref.short, "--game-class offers choices=BOUNDS.keys()", construct="registry-choices",
-              necessity="", rule="REG-B")
+              necessity="a game class that cannot be selected on the command line (or a selectable one that is not registered) breaks the selection the property speaks about", rule="REG-B")
 
 
 def _check_sam_registry(ob: _Ob, prog: Program, comps, analysed, sam: list[Computer], sa: list[Computer]) -> None:
